@@ -407,7 +407,33 @@ func (w *World) ReachFrom(roots []*ssa.Function, stop func(*ssa.Function) bool) 
 			q = append(q, f)
 		}
 	}
-	for len(q) > 0 {
+	type deferredEdge struct {
+		from, to *ssa.Function
+		site     ssa.CallInstruction
+	}
+	var deferred []deferredEdge
+	for len(q) > 0 || len(deferred) > 0 {
+		if len(q) == 0 {
+			// retry deferred closures whose parent has become reachable
+			var rest []deferredEdge
+			for _, d := range deferred {
+				if r.Set[d.to] {
+					continue
+				}
+				if par := d.to.Parent(); r.Set[par] || r.hasOrigin(par) {
+					r.Set[d.to] = true
+					r.pred[d.to] = d.from
+					r.site[d.to] = d.site
+					q = append(q, d.to)
+				} else {
+					rest = append(rest, d)
+				}
+			}
+			deferred = rest
+			if len(q) == 0 {
+				break
+			}
+		}
 		f := q[0]
 		q = q[1:]
 		if !w.InModule(f) {
@@ -440,6 +466,12 @@ func (w *World) ReachFrom(roots []*ssa.Function, stop func(*ssa.Function) bool) 
 			if c == nil || r.Set[c] {
 				continue
 			}
+			// a closure exists only if its enclosing function ran: VTA merges all
+			// closures flowing into one callback type, including those of dead code
+			if par := c.Parent(); par != nil && !r.Set[par] && !r.hasOrigin(par) {
+				deferred = append(deferred, deferredEdge{f, c, e.Site})
+				continue
+			}
 			r.Set[c] = true
 			r.pred[c] = f
 			r.site[c] = e.Site
@@ -457,6 +489,15 @@ func (w *World) ReachFrom(roots []*ssa.Function, stop func(*ssa.Function) bool) 
 		}
 	}
 	return r
+}
+
+func (r *Reach) hasOrigin(fn *ssa.Function) bool {
+	for f := range r.Set {
+		if f.Origin() == fn {
+			return true
+		}
+	}
+	return false
 }
 
 // Has reports whether fn (or, for a generic origin, any instantiation) is in the set.
